@@ -246,7 +246,7 @@ static inline std::vector<double> gen_knots(Rng &r, unsigned o, int nk, int flav
 		case 0: step = 1.0; break;                                   // uniform
 		case 1: step = 0.01 + r.U() * r.U() * 5; break;              // irregular
 		case 2: step = std::pow(10.0, r.U() * 6 - 3); break;         // spacing ratio up to 1e6
-		case 3: step = 0.05 + r.U(); if (!strict && o >= 1 && i > (int)o && i < nk - (int)o - 2 && r.coin(0.3)) step = 0; break; // repeated interior
+		case 3: step = 0.05 + r.U(); if (!strict && o >= 1 && i > (int)o && (i < nk - (int)o - 2 || (i == nk - (int)o - 2 && r.coin(0.4))) && r.coin(0.3)) step = 0; break; // repeated interior (may reach the top knot of full support)
 		default: step = 0.2 + r.U(); break;                          // 4: clamped ends (applied below)
 		}
 		x += step * scale;
